@@ -206,3 +206,52 @@ func TestGovcReplay(t *testing.T) {
 	replayBuilders["pub.Post.SelectLink"] = mk("p", "bodyLinks", "&Post{bodyLinks: make([]string, %d)}")
 	replayBuilders["pub.Actor.SelectLink"] = mk("a", "bioLinks", "&Actor{bioLinks: make([]string, %d)}")
 }
+
+func init() {
+	witnessBuilders["pub.Collection.harvestWithEmptyCount/callsite:pub.Collection.harvestWithEmptyCount#11"] = func(vals map[string]string, sm *oblSummary) (string, string, string, bool) {
+		src := `package pub
+
+import (
+	"errors"
+	"net/url"
+	"servitor/object"
+	"strings"
+	"testing"
+)
+
+// witness for "delivery is cut short only by a failing page or by more than three CONSECUTIVE empty pages":
+// pages  [] [a] [] [b] [] [c] [] [d]  (embedded, no ids, so no network) -- no two empty pages are adjacent.
+func TestGovcReplay(t *testing.T) {
+	page := func(items []any, next any) map[string]any {
+		m := map[string]any{"type": "OrderedCollectionPage", "orderedItems": items}
+		if next != nil {
+			m["next"] = next
+		}
+		return m
+	}
+	var chain any
+	for _, name := range []string{"d", "c", "b", "a"} {
+		chain = page([]any{name}, chain)
+		chain = page([]any{}, chain)
+	}
+	construct := func(input any, _ *url.URL) Tangible {
+		return NewFailure(errors.New("item " + input.(string)))
+	}
+	c, err := NewCollectionFromObject(object.Object(chain.(map[string]any)), nil, construct)
+	if err != nil {
+		t.Fatal(err)
+	}
+	items, _, _ := c.Harvest(4, 0)
+	var got []string
+	for _, it := range items {
+		got = append(got, it.(*Failure).message.Error())
+	}
+	want := "item a,item b,item c,item d"
+	if strings.Join(got, ",") != want {
+		t.Fatalf("Harvest(4,0) delivered %q, want %q", strings.Join(got, ","), want)
+	}
+}
+`
+		return "pub", "TestGovcReplay", src, true
+	}
+}
